@@ -360,11 +360,49 @@ def r5_exact(ctx):
                 ctx.violated(f, n, f"{f.name}: int/int true division", f"`{astx.u(n)[:60]}` divides {l} by {r}: a binary float in an exact-arithmetic utility")
 
 
+def r6_group_and_merge(ctx):
+    prog = ctx.prog
+    f = prog.find_func("merge_ballots")
+    bl = f.params[0]
+    defs = {astx.u(n.targets[0]): n.value for n in astx.walk_own(f.node) if isinstance(n, ast.Assign) and isinstance(n.targets[0], ast.Name)}
+    rets = [n for n in astx.walk_own(f.node) if isinstance(n, ast.Return)]
+    kw = {k.arg: astx.u(k.value) for k in rets[0].value.keywords} if rets and isinstance(rets[0].value, ast.Call) else {}
+    good = astx.u(defs.get("ranking")) == f"{bl}[0].ranking" and kw.get("ranking") == "ranking" and kw.get("weight") in ("Fraction(weight)", "weight") \
+        and astx.u(defs.get("weight")) == f"sum((b.weight for b in {bl}))" and kw.get("voter_set") == "voter_set"
+    ctx.check(good, f, rets[0] if rets else f.node, "merge_ballots: one ballot with the shared ranking, the summed weight and the united voter sets", str(kw), f"merge_ballots returns Ballot({kw})")
+    vs = [n for n in astx.walk_own(f.node) if isinstance(n, ast.Call) and astx.u(n.func) == "reduce"]
+    ctx.check(len(vs) == 1 and "union" in astx.u(vs[0].args[0]) and astx.u(vs[0].args[1]) == "voters_to_merge" and
+              astx.u(defs.get("voters_to_merge")) == f"[b.voter_set for b in {bl} if b.voter_set]", f, vs[0] if vs else f.node, "merge_ballots: voter sets are united over all merged ballots", "",
+              "voter-set union changed")
+    for name, src in (("clean_profile", "cleaned"), ("remove_noncands", "cleaned")):
+        f = prog.find_func(name)
+        gb = astx.unique_def(f.node, "grouped_ballots")
+        nb = astx.unique_def(f.node, "new_ballots")
+        good = isinstance(gb, ast.ListComp) and astx.u(gb.elt) == "list(result)" and astx.u(gb.generators[0].iter) == f"groupby({src}, key=lambda ballot: ballot.ranking)" and not gb.generators[0].ifs \
+            and nb is not None and astx.u(nb) == "tuple([merge_ballots(b) for b in grouped_ballots])"
+        rets = [n for n in astx.walk_own(f.node) if isinstance(n, ast.Return)]
+        good = good and len(rets) == 1 and astx.u(rets[0].value) == "PreferenceProfile(ballots=new_ballots)"
+        ctx.check(good, f, gb or f.node, f"{name}: every run of equal rankings is merged into one ballot, no group dropped", "", f"{name}: grouping / merging pipeline changed")
+    f = prog.find_func("clean_profile")
+    cl = [dv for st, dv in astx.defs_of(f.node, "cleaned") if dv is not None]
+    ctx.check(len(cl) == 1 and astx.u(cl[0]) == f"map({f.params[1]}, {f.params[0]}.ballots)", f, cl[0] if cl else f.node, "clean_profile applies the cleaning function to every ballot", "", "clean_profile no longer maps over all ballots")
+    f = prog.find_func("remove_empty_ballots")
+    defs = {}
+    pm = astx.parents(f.node)
+    N = Normalizer(f.node, inline=False)
+    for st, dv in astx.defs_of(f.node, "pp_clean"):
+        defs[bool_key(N.conj(astx.path_condition(f.node, st, pm, carried=False)))] = astx.u(dv)
+    good = defs.get("truthy(keep_candidates)") == "PreferenceProfile(ballots=ballots_nonempty, candidates=old_cands)" and defs.get("not truthy(keep_candidates)") == "PreferenceProfile(ballots=ballots_nonempty)"
+    oc = astx.unique_def(f.node, "old_cands")
+    ctx.check(good and oc is not None and astx.u(oc) == f"{f.params[0]}.candidates", f, f.node, "remove_empty_ballots keeps the original candidates iff keep_candidates", str(defs), f"remove_empty_ballots builds {defs}")
+
+
 RULES = [
     ("C12.R1", r1_filter_polarity, 8, "a candidate/position is kept iff it is not being removed (every filter site)"),
     ("C12.R2", r2_order, 8, "rebuilt rankings derive from the source ranking through order-preserving steps; regrouping per position"),
     ("C12.R3", r3_weight_provenance, 10, "result weights are copies, weight/k! over permutations, sums, or 0 for exhausted ballots"),
     ("C12.R4", r4_dropped, 6, "ballots are dropped only by the documented filters / flags"),
+    ("C12.R6", r6_group_and_merge, 6, "merge_ballots / clean_profile / remove_noncands grouping pipeline; remove_empty_ballots candidates"),
     ("C12.R5", r5_exact, 10, "no float is created by the library in the editing utilities"),
 ]
 
@@ -385,6 +423,15 @@ FAULTS = [
     ("merge float weight", [(CL, "weight = sum(b.weight for b in ballots)", "weight = sum(float(b.weight) for b in ballots)")], "C12.R"),
     ("dedup keeps later duplicate", [(CL, "            if cand in ranking and cand not in dedup_ranking:", "            if cand in ranking and cand in dedup_ranking:")], "C12.R1"),
     ("noncands filter inverted", [(CL, "            if cand not in to_remove and cand not in clean_ranking:", "            if cand in to_remove and cand not in clean_ranking:")], "C12.R1"),
+]
+FAULTS += [
+    ("merge keeps first weight", [(CL, "    weight = sum(b.weight for b in ballots)", "    weight = ballots[0].weight")], "C12.R"),
+    ("merge takes last ranking", [(CL, "    ranking = ballots[0].ranking", "    ranking = ballots[-1].ranking if len(ballots) > 3 else ballots[0].ranking")], "C12.R6"),
+    ("groups of one dropped", [(CL, "    new_ballots = tuple([merge_ballots(b) for b in grouped_ballots])\n    return PreferenceProfile(ballots=new_ballots)\n\n\ndef merge_ballots", "    new_ballots = tuple([merge_ballots(b) for b in grouped_ballots if len(b) > 1 or b[0].weight > 0])\n    return PreferenceProfile(ballots=new_ballots)\n\n\ndef merge_ballots")], "C12.R6"),
+    ("empty-ballot cleaner loses candidates", [(CL, "        pp_clean = PreferenceProfile(ballots=ballots_nonempty, candidates=old_cands)", "        pp_clean = PreferenceProfile(ballots=ballots_nonempty)")], "C12.R6"),
+    ("expand weight by largest tie", [(UT, "weight=ballot.weight / math.factorial(len(s)),", "weight=ballot.weight / math.factorial(max(len(t) for t in ballot.ranking)),")], "C12.R3"),
+    ("emptied tied position kept", [(UT, "                if len(new_s) > 0:\n                    new_ranking.append(frozenset(new_s))", "                if len(new_s) > 0 or len(s) > 1:\n                    new_ranking.append(frozenset(new_s))")], "C12.R1"),
+    ("dedup compares with last kept only", [(CL, "            if cand in ranking and cand not in dedup_ranking:", "            if cand in ranking and cand not in dedup_ranking[-1:]:")], "C12.R1"),
 ]
 BENIGN = [
     ("comprehension instead of loop", [(UT, "                for c in s:\n                    if c not in removed:\n                        new_s.append(c)\n", "                new_s = [c for c in s if not (c in removed)]\n")]),
